@@ -7,6 +7,23 @@ from .. import driver as D
 
 
 def strain(rng, scale=0.1):
+    if rng.random() < 0.3:
+        # structured strains of any size down to 1e-9: hydrostatic, uniaxial, normal components only, shear only, a single component
+        m = 10 ** rng.uniform(-9, math.log10(scale)) * rng.choice([-1, 1])
+        kind = rng.choice(['hydrostatic', 'uniaxial', 'normal', 'shear', 'single'])
+        if kind == 'hydrostatic':
+            return [m, m, m, 0.0, 0.0, 0.0]
+        if kind == 'uniaxial':
+            e = [0.0] * 6
+            e[rng.randrange(3)] = m
+            return e
+        if kind == 'normal':
+            return [m * rng.uniform(0.2, 1) * rng.choice([-1, 1]) for _ in range(3)] + [0.0, 0.0, 0.0]
+        if kind == 'shear':
+            return [0.0, 0.0, 0.0] + [m * rng.uniform(0.2, 1) for _ in range(3)]
+        e = [0.0] * 6
+        e[rng.randrange(6)] = m
+        return e
     return [round(rng.uniform(-scale, scale), 5) for _ in range(6)]
 
 
